@@ -343,8 +343,6 @@ AttributionKept == ("request" \in handled /\ Owned(tgt.k) /\ px.phase # "dead" /
                      => \A i \in 1..Len(toQ) : toQ[i].meta.cap = tgt \/ (tgt.s \in closed /\ toQ[i].meta.cap = Gone(tgt))
 AppliedAttribution == (ap["request"] = 1 /\ Owned(tgt.k) /\ px.phase \in {"mid", "resp", "end"} /\ ~fixed.recap)
                         => px.meta.cap = tgt \/ (tgt.s \in closed /\ px.meta.cap = Gone(tgt))
-\* an attribution an addon cleared stays cleared on its way to the proxy (no stale value resurfaces)
-ClearedStaysCleared == \A i \in 1..Len(toQ) : toQ[i].meta.cap.k = "unset" => ~Owned("unset") \/ TRUE
 \* the main-process object never shows a session that is gone
 GoneReadsNone == mf.meta.cap.s \notin closed
 \* closing a session neither hands a flow back nor prevents it: the other invariants are stated
